@@ -7,9 +7,9 @@ claimed = {
  "C04": ("exploration","same histories; path index compared after every call with paths recomputed from SHORT-NAME texts (entries, lookups, neighbours, own path)","deterministic simulation: seeded histories with ghost lock faults, reference index oracle","5 C04"),
  "C05": ("exploration","same histories; referrer lists and invalid-reference report compared after every call with references recomputed from content()","deterministic simulation: seeded histories with ghost lock faults, reference referrer oracle","5 C05"),
  "C06": ("exploration","rename/move-heavy histories; every reference's target object recorded before and compared after each successful rename or move, under ghost lock faults the call must fail cleanly or satisfy the post-condition","deterministic simulation: seeded histories with ghost lock faults, per-call reference oracle","5 C06"),
- "C10": ("exploration","file-set-heavy histories on 1-4 files; membership invariants after every call, every file re-serialized and loaded into a fresh model after every modifying call, remove_file post-condition; write() and load_file on a simulated disk with failed and torn writes and read errors: after an acknowledged write the disk holds exactly the text of every file","deterministic simulation: seeded histories with ghost lock faults, reload differential","5 C10"),
- "C11": ("fault_enumeration","for sampled fault-free histories every try/timed lock acquisition of every call is failed once (ghost neighbour), every successful load is repeated with torn/corrupted buffers at token boundaries, every disk access of write() / load_file is failed once (nothing written / torn file / read error); plus random histories with late-failing arguments; any Err must leave the canonical snapshot unchanged","deterministic simulation: exhaustive single-fault enumeration per call (ghost lock conflicts, torn/corrupt buffers) + seeded histories","5 C11"),
- "C12": ("exploration","fault-free single-client histories over all public calls with live, stale, foreign, orphaned and self operands, torn / corrupted / recoverably defective documents; panics caught, self-deadlock (would hang) detected on the lock table, any ParentElementLocked is spurious, step budget; recursive calls on element chains up to 12 000 (thorough 25 000) levels deep in separate processes","deterministic simulation: single client on the simulated lock table and clock (timed try-locks cost no real time), seeded histories","5 C12"),
+ "C10": ("exploration","file-set-heavy histories on 1-4 files; membership invariants after every call, every file re-serialized and loaded into a fresh model after every modifying call, remove_file post-condition; write() and load_file on a simulated disk with failed and torn writes and read errors: after an acknowledged write the disk holds exactly the text of every file","deterministic simulation: seeded histories with ghost lock faults and disk faults (simulated file system: read errors, failed and torn writes), reload differential, disk-versus-model oracle after write()","5 C10"),
+ "C11": ("fault_enumeration","for sampled fault-free histories every try/timed lock acquisition of every call is failed once (ghost neighbour), every successful load is repeated with torn/corrupted buffers at token boundaries, every disk access of write() / load_file is failed once (nothing written / torn file / read error); plus random histories with late-failing arguments; any Err must leave the canonical snapshot unchanged","deterministic simulation: exhaustive single-fault enumeration per call (ghost lock conflicts, torn/corrupt buffers, disk read and write errors on a simulated file system) + seeded histories","5 C11"),
+ "C12": ("exploration","fault-free single-client histories over all public calls with live, stale, foreign, orphaned and self operands, torn / corrupted / recoverably defective documents, load_file / write on a simulated disk with read errors and failed or torn writes; panics caught, self-deadlock (would hang) detected on the lock table, any ParentElementLocked is spurious, step budget; recursive calls on element chains up to 12 000 (thorough 25 000) levels deep in separate processes","deterministic simulation: single client on the simulated lock table and clock (timed try-locks cost no real time), seeded histories","5 C12"),
  "C13": ("exploration","copy/duplicate-heavy histories; copy compared with a harness-side expected copy (version filter from the specification), node disjointness, findability, source unchanged, duplicate text equality, independence of models that own no operand","deterministic simulation: seeded histories with ghost lock faults, reference copy oracle","5 C13"),
  "C15": ("exploration","2-3 client threads under a seeded scheduler (uniform / k pre-emptions / priority change points, stalls) on a parking_lot-faithful lock table; exact wait-for-cycle detection; operation-pair catalogue walked by run index, 6 schedules per scenario; plus a lock-order harvest over single-client histories whose unlisted edges are turned into concrete deadlocks by a directed schedule search","deterministic simulation: seeded schedule search with exact deadlock detection, lock-order harvest + directed search","5 C15 and 11.4"),
  "C16": ("exploration","pair scenarios (15 % twins: the same call on the same operands) under seeded schedules with stalls; results and final state of every completed run compared with every sequential order executed by the real code in a fresh model; plus the lock-only-neighbour differential (a history with one ghost fault vs the same history without)","deterministic simulation: seeded schedule search, sequential-order (serializability) oracle, ghost differential","5 C16 and 11.4"),
